@@ -758,6 +758,9 @@ def api_lin_run(work, verdict, stats, binary, scs, tier):
         stats["samples"].append({"api_history": traces[0][:14]})
 
 
+C10_CLOSE_PREDS = ["C08_FinalNoTask", "C08_LastIsClosed", "C08_CloseReturns", "C08_FinalClosedError"]
+
+
 def c10(tier, seed):
     verdict = v.Verdict("C10", tier, seed)
     stats = new_stats()
@@ -804,6 +807,18 @@ def c10(tier, seed):
             raise box["exc"]
         race_part(work, verdict, stats, box["race"], tier, seed)
         api_lin_part(work, verdict, stats, binary, tier, seed)
+        # Agent.Close on top of the loop: two closers of one agent racing (Close/Close, Close/GracefulClose, from API goroutines and
+        # from handlers) at every position of a connection history; the close driver's event log is judged by CloseMon for the
+        # clauses of this property (no task after Close has returned, the close callback's effects come last, every Close returns)
+        import plan_close
+        t2 = time.time()
+        work.copy_specs("close")
+        cs = {}
+        plan_close.judge_close(work, v.build_harness(work), verdict, cs, plan_close.racing_closers(tier, seed), "C10", C10_CLOSE_PREDS, "closerace")
+        stats["racing_closers"] = cs
+        stats["real_traces"] += cs.get("scenarios", 0)
+        stats["real_steps"] += cs.get("events", 0)
+        stats["timing_s"]["racing_closers"] = round(time.time() - t2, 1)
     stats.pop("_shapes", None)
     verdict.coverage.update(stats)
     verdict.coverage["predicates"] = TL_PREDS + ["RaceFree", "Linearizable"] + AL_HIST_PREDS
